@@ -106,6 +106,14 @@ Definition sv_noninterference (sv : setvars) : Prop :=
   forall vars A s1 s2, incl SV_READS A -> agree A s1 s2 ->
     snd (sv vars s1) = snd (sv vars s2) /\ agree A (fst (sv vars s1)) (fst (sv vars s2)).
 
+(* running the analysis by computation: the boolean form and what it gives *)
+Lemma flow_covers_b l A O :
+  match flow l A with Some B => subset O B | None => false end = true ->
+  exists B, flow l A = Some B /\ incl O B.
+Proof.
+  destruct (flow l A) as [B|]; [|discriminate]. intros H. exists B. split; [reflexivity | apply subset_incl; exact H].
+Qed.
+
 Section Flow.
   Variable sv : setvars.
   Variable e : envt.
@@ -555,9 +563,7 @@ Section Reuse.
     flow setExecuteConfig_steps (rev (map fst (prologue_binds en)) ++ rev (map fst resetCore_binds) ++ A0) = Some B /\
     incl (obs_fields_partial en) B.
   Proof.
-    destruct en as [|ck cv dv].
-    - eexists. split; [vm_compute; reflexivity | apply subset_incl; vm_compute; reflexivity].
-    - eexists. split; [vm_compute; reflexivity | apply subset_incl; vm_compute; reflexivity].
+    destruct en as [|ck cv dv]; apply flow_covers_b; vm_compute; reflexivity.
   Qed.
 
   (* MAIN LEMMA.  g: any state an Interpreter can be in.  The caller optionally calls ResetVars (rv) and
@@ -575,6 +581,32 @@ Section Reuse.
     pose proof (reachable_Inv g Hr) as HI.
     destruct (prepare_sound sv e c F sv_ni sv_nf en A0 B (reused rv rr g) (carry rv rr g fresh) HF HB
                 (initial_agreement rv rr g HI) (inv_once _ (Inv_reused rv rr g HI)) (once_ok_carry rv rr g)) as [H1 H2].
+    split; [exact H1 | intros Hn; eapply agree_incl; [exact Hincl | apply H2; exact Hn]].
+  Qed.
+
+  (* ---------- New + Execute = ExecProgram (newInterp + setExecuteConfig, no resetCore) ---------- *)
+  Definition not_argc : list field := filter (fun f => negb (String.eqb f "argc")) model_fields.
+
+  (* resetCore and the Execute prologue change nothing but argc in a new interpreter *)
+  Lemma resetCore_on_fresh : agree not_argc (m_prologue EExec (m_resetCore fresh)) fresh.
+  Proof.
+    intros f Hf. vm_compute in Hf.
+    repeat (destruct Hf as [<-|Hf]; [vm_compute; reflexivity|]). contradiction.
+  Qed.
+
+  Theorem execprogram_eq_new_execute : forall c, c_funcs c = F ->
+    let a := m_prepare sv e EExec c fresh in
+    let b := m_setExecuteConfig sv e c fresh in
+    snd a = snd b /\ (snd a = None -> agree (obs_fields EExec) (fst a) (fst b)).
+  Proof.
+    intros c HF a b.
+    assert (HB : exists B, flow setExecuteConfig_steps not_argc = Some B /\ incl (obs_fields EExec) B).
+    { apply flow_covers_b. vm_compute. reflexivity. }
+    destruct HB as [B [HB Hincl]].
+    assert (Ho1 : once_ok F (m_prologue EExec (m_resetCore fresh))) by (left; reflexivity).
+    assert (Ho2 : once_ok F fresh) by (left; reflexivity).
+    destruct (flow_sound sv e c F sv_ni sv_nf setExecuteConfig_steps not_argc B _ _
+                (once_fn_ok_setcfg c HF) HB resetCore_on_fresh Ho1 Ho2) as [H1 H2].
     split; [exact H1 | intros Hn; eapply agree_incl; [exact Hincl | apply H2; exact Hn]].
   Qed.
 End Reuse.
